@@ -139,6 +139,11 @@ def check_fold(chk, rule, where, kf, what, *, kind, term=None, sense=None, init_
         scalar = ("SUM", "EXT")
         if kf.kind in scalar and kind in scalar or (kind in ("ARGSET",) and kf.kind in scalar) or (kind in scalar and kf.kind == "ARGSET"):
             probs.append("is a %s fold, specification requires %s" % (kf.kind, kind))
+        elif kind == "EXT" and kf.kind == "ARG" and kf.of is not None and kf.of.kind == "EXT" and isinstance(kf.term, tuple) and kf.term != kf.of.term \
+                and not opaque(kf.term) and not opaque(kf.of.term):
+            # the value of one quantity at the successor that is extreme in ANOTHER quantity is not the extremum of the first
+            probs.append("takes `%s` at the successor with the %s `%s`, specification: the %s of `%s` itself" % (
+                show(kf.term), "smallest" if kf.of.sense == "min" else "largest", show(kf.of.term), sense or kf.of.sense, show(term) if term is not None else show(kf.term)))
         else:
             # a different but possibly equivalent construction (comprehension, collect...): cannot decide
             chk.undecided(rule, where, "%s: built as %s; equivalence with %s not established" % (what, found, expected))
